@@ -58,6 +58,9 @@ void harness(void)
 	MW.file = &vp_file;
 	MW.cmp = &vp_cmp;
 	MW.flags = ND_BOOL() ? SQFS_META_WRITER_KEEP_IN_MEMORY : 0;
+#ifdef IOFAIL
+	vp_io_may_fail = 1;
+#endif
 	vp_img_size = ND_U64();
 	VP_ASSUME(vp_img_size <= 2);
 	base = vp_img_size;
@@ -80,6 +83,9 @@ void harness(void)
 		VP_ASSERT(vp_wlog_n == 0, "KEEP_IN_MEMORY writes nothing until asked");
 		ret = sqfs_meta_write_write_to_file(&MW);
 	}
+#ifdef IOFAIL
+	VP_ASSERT(!vp_io_failed || failed || ret != 0, "C13: a failed file write makes the metadata writer fail");
+#endif
 	if (failed || ret != 0) {
 		VP_REACH("compressor_error");
 		return;
